@@ -85,6 +85,7 @@ pub fn exec(tok: &[&str]) -> String {
             let name = format!("{}_from_bytes", tok[1]);
             ["512", "1024", "512"].iter().map(|n| exec(&[name.as_str(), n, tok[2]])).collect::<Vec<_>>().join(" | ")
         }
+        "ref_comp_decode" => crate::c16::op_ref_comp_decode(tok[1].parse().unwrap(), &unhex(tok[2])),
         // ---- NTT over Z_q (C11) -------------------------------------------------------------------
         "felt_fft" => ints(&vh::felt_fft(&parse_ints::<u32>(tok[1]))),
         "felt_ifft" => ints(&vh::felt_ifft(&parse_ints::<u32>(tok[1]))),
